@@ -970,7 +970,19 @@ def _check_push(fn, name):
             t = t[1]
         if not (t and t[0] == "local" and t[1] == fname and t[2] <= m.arg_count):
             return False, "field %s <- %s" % (fname, term_str(t))
-    pushes = [t for _, t in m.calls() if (m.callee(t) or {}).get("path", "").endswith("Vec::<T, A>::push")]
+    def is_push(mm, t, depth=0):
+        path = (mm.callee(t) or {}).get("path", "")
+        if path.endswith("Vec::<T, A>::push"):
+            return True
+        g = fn.prog.fn(path) if depth < 2 else None
+        if g is not None and g.mir is not None:
+            # a recording helper (`fn record(&mut self, op: DiffOp)`): exactly one push, of one of its own parameters
+            inner = [t2 for _, t2 in g.mir.calls() if is_push(g.mir, t2, depth + 1)]
+            if len(inner) == 1:
+                a = g.mir.resolve_operand(inner[0]["args"][-1])
+                return bool(a and a[0] == "local" and isinstance(a[2], int) and 1 <= a[2] <= g.mir.arg_count)
+        return False
+    pushes = [t for _, t in m.calls() if is_push(m, t)]
     if len(pushes) != 1:
         return False, "%d pushes" % len(pushes)
     return True, "DiffOp::%s{%s}" % (variant, ", ".join(rv["fields"]))
@@ -1191,10 +1203,115 @@ def rule_B5(prog):
     return r
 
 
+def _b6_field_path(proj):
+    """`(*_1).old.current` -> 'old.current' (names of the field projections of a place rooted at self)."""
+    names = [e.get("name") for e in proj if isinstance(e, dict) and "field" in e]
+    return ".".join(str(n) for n in names) if names else None
+
+
+def _b6_self_field_term(t, depth=0):
+    """Resolved MIR term -> field path below `self`, or None."""
+    names = []
+    while isinstance(t, tuple) and t and depth < 12:
+        depth += 1
+        if t[0] == "field":
+            names.append(str(t[2]))
+            t = t[1]
+        elif t[0] in ("deref", "ref"):
+            t = t[1]
+        elif t[0] == "local":
+            return ".".join(reversed(names)) if names and (len(t) > 2 and t[2] == 1) else None
+        else:
+            return None
+    return None
+
+
+def _b6_error_blocks(m):
+    """Blocks of the `?` error arm (they call FromResidual::from_residual): paths through them are not 'normal'."""
+    out = set()
+    for bb, t in m.calls():
+        if (m.callee(t) or {}).get("path", "").endswith("FromResidual::from_residual"):
+            out.add(bb)
+    return out
+
+
+def _b6_avoidable(m, points, targets):
+    """Can a normal (non-error, non-cleanup) path reach one of `targets` from the entry without visiting `points`?"""
+    stop = set(points) | _b6_error_blocks(m)
+    seen = set()
+    stack = [0]
+    while stack:
+        b = stack.pop()
+        if b in seen or b in stop or m.blocks[b]["cleanup"]:
+            continue
+        seen.add(b)
+        if b in targets:
+            return True
+        stack.extend(m.succs(b))
+    return False
+
+
+def _b6_summary(prog, fn, depth=0, memo=None):
+    """What a `self` method of the Patience hook contributes: the gap-diff call sites, the cursor fields read for the
+    gap ranges, and the self-field stores, each as (block, after_gap) points of this function."""
+    memo = {} if memo is None else memo
+    if fn.path in memo:
+        return memo[fn.path]
+    memo[fn.path] = None
+    m = fn.mir
+    gaps = []          # (block, cursor paths or None, line)
+    stores = {}        # path -> [(block, internally_after_gap)]
+    for bb, t in m.calls():
+        c = m.callee(t) or {}
+        path = c.get("path", "")
+        if path.endswith("myers::diff_deadline"):
+            curs = []
+            for ai in (2, 4):
+                term = m.expand(m.resolve_operand(t["args"][ai]), depth=3) if ai < len(t["args"]) else None
+                start = None
+                if isinstance(term, tuple) and term and term[0] == "aggregate":
+                    start = term[2].get("start")
+                curs.append(_b6_self_field_term(start))
+            gaps.append((bb, curs, t["line"]))
+            continue
+        g = prog.fn(path)
+        if g is None or g.mir is None or depth >= 3 or not g.hir or not g.hir.get("params"):
+            continue
+        if (g.hir["params"][0]["pat"].get("name") != "self") or not fn.impl or not g.impl or \
+                ty_head(g.impl.get("self_ty")) != ty_head(fn.impl.get("self_ty")):
+            continue
+        sub = _b6_summary(prog, g, depth + 1, memo)
+        if not sub:
+            continue
+        gm = g.mir
+        rets = set(gm.returns())
+        sub_gaps = [x for x in sub["gaps"]]
+        if sub_gaps and not _b6_avoidable(gm, [x[0] for x in sub_gaps], rets):
+            for x in sub_gaps[:1]:
+                gaps.append((bb, x[1], t["line"]))
+        elif sub_gaps:
+            gaps.append((bb, None, t["line"]))      # a conditional gap diff inside a helper: reported by the caller
+        for pth, pts in sub["stores"].items():
+            blocks = [b for b, _ in pts]
+            if _b6_avoidable(gm, blocks, rets):
+                continue                           # not stored on every normal path of the helper
+            after = bool(sub_gaps) and all(any(gm.dominates(gb, b) and (b != gb or ag) for gb, _, _ in sub_gaps) for b, ag in pts)
+            stores.setdefault(pth, []).append((bb, after))
+    for i, blk in enumerate(m.blocks):
+        for s_ in blk["stmts"]:
+            if s_["k"] == "assign" and s_["p"]["l"] == 1:
+                pth = _b6_field_path(s_["p"]["proj"])
+                if pth:
+                    stores.setdefault(pth, []).append((i, False))
+    memo[fn.path] = {"gaps": gaps, "stores": stores}
+    return memo[fn.path]
+
+
 def rule_B6(prog):
     r = RuleResult("B6", "Patience::equal handles every anchor completely: in its anchor loop every iteration that does not "
-                         "leave through an error passes through the gap diff (the inner myers call on the NoFinishHook) and "
-                         "then moves both cursors to the anchor; no `continue`/early path skips them")
+                         "leave through an error passes through the gap diff (the inner myers call on the NoFinishHook, possibly "
+                         "inside a helper method) and then stores both cursors (the self fields the gap ranges start at); no "
+                         "`continue`/early path skips them")
     pr = proto(prog)
     for imp in pr.impls:
         if ty_head(imp["self_ty"]) != "algorithms::patience::Patience":
@@ -1205,37 +1322,42 @@ def rule_B6(prog):
             continue
         m = fn.mir
         loops = m.loops()
-        gap = [(bb, t) for bb, t in m.calls() if (m.callee(t) or {}).get("path", "").endswith("myers::diff_deadline")]
+        summ = _b6_summary(prog, fn)
+        gap = summ["gaps"]
         r.instances += 1
         if len(gap) != 1 or not loops:
             r.ob(False, "Patience::equal: %d gap-diff calls, %d loops" % (len(gap), len(loops)))
-            r.find(fn.path, "gap-shape", "Patience::equal must contain exactly one inner myers::diff_deadline call inside its anchor loop "
-                   "(found %d calls, %d loops)" % (len(gap), len(loops)), file=fn.file, line=fn.line)
+            r.find(fn.path, "gap-shape", "Patience::equal must contain exactly one inner myers::diff_deadline call (directly or in "
+                   "a helper method of the hook) inside its anchor loop (found %d calls, %d loops)" % (len(gap), len(loops)),
+                   file=fn.file, line=fn.line)
             continue
-        gb = gap[0][0]
+        gb, cursors, gline = gap[0]
         outer = [(h, body) for h, body in loops if gb in body]
         outer.sort(key=lambda x: -len(x[1]))
         if not outer:
             r.ob(False, "gap diff is not inside a loop")
-            r.find(fn.path, "gap-outside-loop", "the gap diff of Patience::equal is not inside the anchor loop", file=fn.file, line=gap[0][1]["line"])
+            r.find(fn.path, "gap-outside-loop", "the gap diff of Patience::equal is not inside the anchor loop", file=fn.file, line=gline)
+            continue
+        if not cursors or None in cursors or len(set(cursors)) != 2:
+            r.ob(False, "gap ranges do not start at two self fields: %s" % (cursors,))
+            r.find(fn.path, "gap-cursors", "the gap diff's old and new ranges must start at the hook's two cursor fields (found %s; a "
+                   "conditional gap diff inside a helper is not accepted)" % (cursors,), file=fn.file, line=gline)
             continue
         h, body = outer[0]
         backs = [(a, b) for (a, b) in m.back_edges() if b == h]
         bad = [a for (a, b) in backs if not m.dominates(gb, a)]
-        # cursor stores: self.old_current / self.new_current assigned after the gap diff
+        # cursor stores after the gap diff: in a later block, or inside the helper that contains the gap diff, after it
         stores = {}
-        for i in body:
-            for s_ in m.blocks[i]["stmts"]:
-                if s_["k"] == "assign" and s_["p"]["l"] == 1:
-                    names = [e.get("name") for e in s_["p"]["proj"] if isinstance(e, dict) and "field" in e]
-                    if names and names[0] in ("old_current", "new_current") and m.dominates(gb, i) and i != gb:
-                        stores.setdefault(names[0], []).append(i)
-        ok = not bad and set(stores) == {"old_current", "new_current"} and all(
+        for pth in cursors:
+            for b, after in summ["stores"].get(pth, []):
+                if b in body and m.dominates(gb, b) and (b != gb or after):
+                    stores.setdefault(pth, []).append(b)
+        ok = not bad and set(stores) == set(cursors) and all(
             all(any(m.dominates(sb, a) for sb in blocks) for (a, b) in backs) for blocks in stores.values())
-        r.ob(ok, "Patience::equal: %d back edge(s) of the anchor loop, %d not dominated by the gap diff; cursor stores after it: %s" % (
-            len(backs), len(bad), sorted(stores)))
+        r.ob(ok, "Patience::equal: %d back edge(s) of the anchor loop, %d not dominated by the gap diff; cursors %s stored after it: %s" % (
+            len(backs), len(bad), sorted(cursors), sorted(stores)))
         if not ok:
             r.find(fn.path, "anchor-skipped", "Patience::equal: some iteration of the anchor loop reaches the next anchor without the "
-                   "gap diff and the cursor updates (back edges not dominated by the gap diff: %d; cursors stored after it on every "
-                   "iteration: %s)" % (len(bad), sorted(stores)), file=fn.file, line=gap[0][1]["line"])
+                   "gap diff and the cursor updates (back edges not dominated by the gap diff: %d; cursors %s; stored after it on "
+                   "every iteration: %s)" % (len(bad), sorted(cursors), sorted(stores)), file=fn.file, line=gline)
     return r
